@@ -7,6 +7,7 @@ import (
 	"go/ast"
 	"go/token"
 	"go/types"
+	"golang.org/x/tools/go/packages"
 	"sort"
 	"strings"
 )
@@ -586,6 +587,22 @@ func checkC12(res *Result) {
 	res.Rule("C12-R5", "literal codecs: the duration reader and writer use 365-day years, 30-day months, 24-hour days with the same factors in both directions and emit a unit when at least one whole unit remains; dateTime is written and first read as RFC 3339; the other codecs write the value itself")
 	checkCodecs(res, S, "C12-R5")
 	res.Functions = len(M.Types) + len(M.Props)
+	res.Rule("C12-R8", "the generator's member-set algebra (what decides a generated type's property set, also for extension vocabularies): allProperties adds the properties of every transitive ancestor and only afterwards removes those withheld from any transitive ancestor and from the type itself (shared with C15-R4)")
+	{
+		tmp := NewResult("C15", "other", res.Tier, 0)
+		checkC15Algebra(tmp, loadPkgs(packages.LoadSyntax, false, "./astool/..."))
+		n := 0
+		for _, o := range tmp.Obligs {
+			if o.Rule != "C15-R4" {
+				continue
+			}
+			n++
+			o.Rule = "C12-R8"
+			o.Key = strings.Replace(o.Key, "C15-R4", "C12-R8", 1)
+			res.Add(o)
+		}
+		res.Count("C12-R8 obligations on TypeGenerator.allProperties", n, 4)
+	}
 	res.Rule("C12-R7", "typed accessors: GetType / SetType of every property cover each type-valued kind of its range and pair each with its own getter / setter (shared with C18-R4)")
 	checkTypeAccessorTables(res, "C12-R7", nil)
 	res.Rule("C12-R6", "a non-functional property holds the document's list in order also when walked with Begin/Next/Prev: every decoder numbers the elements it produces 0..n-1 and links them to the container (shared with C18-R1)")
